@@ -117,6 +117,12 @@ def cases(ctx):
                                "abcdef" * 12 + ":12", ("12" * 20 + " ") * 3, "=" , ":=", "0:0:0:0:0:0:0:0:0:0:0:0:0:0:0:0"]):
         tbl = f"; noise {i}\n41=A\n{noise}\n42=B\n"
         add("table-noise", "*=0x008000\n.table 'n.tbl'\n.text 'ABBA'\nend:\n.dl end\n", {"n.tbl": {"tbl_text": tbl}})
+    # operand widths that depend on a label behind the instruction, exactly on a width boundary: no assignment of
+    # widths is a fixed point (an assembler that iterated the label pass "until it settles" would never stop)
+    for mn in ("ldx", "lda", "sta", "adc"):
+        for k in (0x8101, 0x8102, 0x8103, 0x18002, 0x18003):
+            add("width-oscillation", f"*=0x008000\n{mn} {k:#x} - zz_free\nzz_free:\n")
+            add("width-oscillation", f"*=0x008000\nzz_top:\n{mn} {k:#x} - zz_free\n{mn} zz_free - zz_top + 0xfd\nzz_free:\n.dl zz_free\n")
     # a block argument that pastes itself: the inner macro's parameter has the same name as the outer one's, so inside the
     # inner scope `code` is bound to the block { {{code}} } which looks itself up (no macro is applied on the cycle)
     add("recursion", "*=0x008000\n.macro zz_tw(code) {\n{{code}}\n{{code}}\n}\n.macro zz_pt(code) {\nzz_tw({\n{{code}}\n})\n}\nzz_pt({\nnop\n})\n")
